@@ -8,6 +8,7 @@ import (
 	"sync"
 
 	"github.com/AdguardTeam/urlfilter"
+	"github.com/AdguardTeam/urlfilter/filterlist"
 	"github.com/AdguardTeam/urlfilter/rules"
 
 	"verif/enum"
@@ -516,7 +517,18 @@ func init() {
 				byT[engPool[i].text()] = engPool[i]
 			}
 			st := stringStorage(joinLines(lines) + "\n")
-			for _, src := range []string{"http://src.org/", "http://sub.src.org/"} {
+			if len(lines) > 1 {
+				// one list per rule, list ids in no particular order
+				var lists []filterlist.RuleList
+				for k, l := range lines {
+					lists = append(lists, &filterlist.StringRuleList{ID: []int{50, 10, 40}[k], RulesText: l + "\n"})
+				}
+				var serr error
+				if st, serr = filterlist.NewRuleStorage(lists); serr != nil {
+					panic(HarnessError(serr.Error()))
+				}
+			}
+			for _, src := range []string{"http://src.org/", "http://sub.src.org/", "http://a.b.c.d.e.f.g.h.sub.src.org/"} {
 				req := func() *rules.Request {
 					return rules.NewRequest("http://ads.example.com/x", src, rules.TypeScript)
 				}
@@ -548,6 +560,42 @@ func init() {
 				}
 			}
 		})
+		// six lists (headers of different lengths, ids in no particular order), one candidate each, in every order of the lists
+		{
+			six := []srule{{false, "||ads.example.com^", nil}, {true, "||ads.example.com^", nil}, {false, "||ads.example.com^", []string{"important"}},
+				{false, "/x", []string{"domain=src.org"}}, {true, "||ads.example.com^", []string{"important"}}, {false, ".com^", []string{"script"}}}
+			ids := []int{50, 10, 40, 20, 30, 15}
+			enum.Permutations(len(six), func(p []int) bool {
+				var lists []filterlist.RuleList
+				var order []string
+				best := [3]int{-1, 0, 0}
+				byT := map[string]srule{}
+				for _, i := range p {
+					lists = append(lists, &filterlist.StringRuleList{ID: ids[i], RulesText: "! list " + strings.Repeat("#", 3*i) + "\n" + six[i].text() + "\n"})
+					order = append(order, fmt.Sprintf("%d:%s", ids[i], six[i].text()))
+					byT[six[i].text()] = six[i]
+					if k := six[i].key(); keyLess(best, k) {
+						best = k
+					}
+				}
+				st, serr := filterlist.NewRuleStorage(lists)
+				if serr != nil {
+					panic(HarnessError(serr.Error()))
+				}
+				req := rules.NewRequest("http://ads.example.com/x", "http://src.org/", rules.TypeScript)
+				sel1 := urlfilter.NewEngine(st).MatchRequest(req).BasicRule
+				sel2, _ := urlfilter.NewNetworkEngine(st).Match(req)
+				for which, sel := range []*rules.NetworkRule{sel1, sel2} {
+					engSelections++
+					if sel == nil || byT[sel.RuleText].key() != best {
+						name := []string{"Engine.MatchRequest", "NetworkEngine.Match"}[which]
+						c.Run.Violate(ev.Violation{Pred: "engine-selected-rule-is-maximal", Sig: map[string]any{"lists": order, "engine": name},
+							What: fmt.Sprintf("%s over six lists %v (id:rule, each list with a header line) selected %s, the maximal (class, specific, count) key among the rules that match is %v", name, order, renderNetText(sel), best), Replay: map[string]any{"rules": []string{}}})
+					}
+				}
+				return true
+			})
+		}
 		c.Run.Set("engine_selections", engSelections)
 
 		c.Run.Sample(map[string]any{"pair": []string{pool[1].text, pool[n-1].text}, "first_outranks_second": M.get(1, n-1)})
